@@ -7,10 +7,13 @@ mod interp_ctor;
 mod interp_vec;
 mod interp_vec2;
 mod interp_iter;
+mod interp_serde;
 mod interp_ops;
 mod parent;
 mod script;
 mod selftest;
+mod serde_script;
+mod serde_ser;
 mod shadow;
 mod shadow_iter;
 mod trace;
